@@ -434,7 +434,7 @@ func Run(ctx *common.Ctx) int {
 	}
 	return ctx.Finish("exploration", cov, []string{
 		"the fifteen tests are reached only through randomness.TestMethodArr (stub seam); the link bytes -> (P,Q,Pass) is C15/C16's subject",
-		"oracle: exact integer threshold predicate and 320-bit Q(9/2, V/2) with exact rational chi-square; uniformity within 1e-12 of 0.0001 accepts either verdict",
+		"oracle: exact integer threshold predicate and 192-bit Q(9/2, V/2) with exact rational chi-square; uniformity within 1e-12 of 0.0001 accepts either verdict",
 	})
 }
 
